@@ -27,6 +27,8 @@ import magpylib._src.fields.field_BH_triangularmesh as tm
 
 warnings.simplefilter("ignore")
 
+POL = (0.13, -0.21, 0.34)
+
 
 # =============================================================================== constructions
 # every part: dict(kind, verts (n,3) float in "unit" coordinates, faces (m,3) int wound OUTWARDS,
@@ -372,6 +374,41 @@ def gen_spike(rng, spike_first=None):
     raise RuntimeError("no spike configuration found")
 
 
+def gen_nested(rng):
+    """a body with a cavity: a convex shell and a scaled-down copy of it inside (both closed, disjoint)"""
+    a = PARTS[rng.choice(CONVEX_PARTS)](rng)
+    b = dict(a)
+    k = rng.choice([0.3, 0.5, 0.7])
+    b["verts"] = a["inner"] + k * (a["verts"] - a["inner"])
+    body = assemble([a, b], "nested-shells", False)
+    body["nested"] = True
+    return body
+
+
+def gen_tiny(rng, nfaces):
+    """one triangle / two triangles sharing an edge: the smallest (open) meshes"""
+    verts = np.array([(0, 0, 0), (rng.randint(1, 4), 0, 0), (0, rng.randint(1, 4), 0), (0, 0, rng.randint(1, 4))], dtype=float)
+    faces = np.array([(0, 1, 2), (0, 2, 3)][:nfaces], dtype=int)
+    return {"construction": f"{nfaces}-face-mesh", "verts": verts, "faces": faces, "owner": [0] * nfaces,
+            "inner": [verts.mean(axis=0)], "selfint": False, "closed": False}
+
+
+STRETCHES = [(1, 1, 30), (1, 30, 1), (30, 1, 1), (1, 10, 10), (10, 1, 10), (10, 10, 1),
+             (1, 1, 0.05), (1, 0.05, 1), (0.05, 1, 1)]
+POLS = [POL, (1, 0, 0), (-1, 0, 0), (0, 1, 0), (0, -1, 0), (0, 0, 1), (0, 0, -1), (0, 0, 0), (1e-6, 0, 2e5)]
+
+
+def stretch_base(base, sxyz):
+    """anisotropic positive scaling (needle / plate shapes with every axis as the special one): an affine map with
+    positive diagonal keeps closedness, connectivity, crossings and outward winding"""
+    sxyz = np.asarray(sxyz, dtype=float)
+    out = dict(base)
+    out["verts"] = base["verts"] * sxyz
+    out["inner"] = [np.asarray(p) * sxyz for p in base["inner"]]
+    out["construction"] = base["construction"] + "+stretched"
+    return out
+
+
 def delete_faces(rng, base):
     n = len(base["faces"])
     k = rng.randint(1, max(1, n // 4))
@@ -433,7 +470,8 @@ def apply_transform(base, t, scale=1.0, offset=(0.0, 0.0, 0.0)):
         owner.append(base["owner"][pos])
     assert nv == len(verts)
     return {"verts": verts.tolist(), "faces": faces, "truth_faces": truth, "owner": owner,
-            "construction": base["construction"], "closed": base["closed"], "selfint": base["selfint"]}
+            "construction": base["construction"], "closed": base["closed"], "selfint": base["selfint"],
+            "pol": list(base.get("pol", POL)), "nested": bool(base.get("nested", False))}
 
 
 # =============================================================================== ground truth (independent)
@@ -545,11 +583,11 @@ def components_outward(verts, faces):
 
 
 # =============================================================================== oracle on the real class
-POL = (0.13, -0.21, 0.34)
 
 
 def make_mesh(mesh, **kw):
-    return magpy.magnet.TriangularMesh(vertices=mesh["verts"], faces=mesh["faces"], polarization=POL, **kw)
+    return magpy.magnet.TriangularMesh(vertices=mesh["verts"], faces=mesh["faces"],
+                                       polarization=mesh.get("pol", POL), **kw)
 
 
 def observers_for(base, scale, offset):
@@ -572,10 +610,31 @@ def reference_field(base, scale, offset):
     return obs, src.getB(obs), src.getH(obs)
 
 
+def nested_reference(base, scale, offset):
+    """nested shells: which way the inner shell should face is not laid down by the property; what it demands is
+    that the result does not depend on face order / winding / numbering -> reference = the class's own result on
+    the base order"""
+    nf, nv = len(base["faces"]), len(base["verts"])
+    m = apply_transform(base, gen_transform(None, nf, nv, []), scale, offset)
+    src = make_mesh(m)
+    obs = observers_for(base, scale, offset)
+    return obs, src.getB(obs), src.getH(obs)
+
+
+def make_ref(base, scale, offset):
+    if base.get("nested"):
+        return nested_reference(base, scale, offset)
+    if base["closed"] and not base["selfint"]:
+        return reference_field(base, scale, offset)
+    return None
+
+
 def field_close(a, b, rtol=1e-10):
+    """equal up to the rounding of a sum taken in another order: that error scales with the largest face
+    contributions, i.e. with the largest field among the observers (near and inside ones included), not with the
+    possibly much smaller field at a far observer where the contributions cancel"""
     a, b = np.asarray(a), np.asarray(b)
-    ref = np.max(np.abs(b), axis=-1, keepdims=True)
-    return bool(np.all(np.abs(a - b) <= rtol * ref + 1e-300))
+    return bool(np.all(np.abs(a - b) <= rtol * np.max(np.abs(b)) + 1e-300))
 
 
 def check_mesh(mesh, ref=None):
@@ -606,7 +665,15 @@ def check_mesh(mesh, ref=None):
         else:
             out.append(("selfintersecting-spurious", "status_selfintersecting=True but the construction is free "
                         "of intersections (confirmed by a float64 edge-through-face test with margins)"))
-    if mesh["closed"] and mesh.get("selfint") is False:
+    if mesh.get("nested"):
+        if ref is not None:
+            obs, B0, H0 = ref
+            B, H = src.getB(obs), src.getH(obs)
+            if not (field_close(B, B0) and field_close(H, H0)):
+                out.append(("field-order", "getB/getH of a body with a cavity (nested closed shells) differ from the "
+                            "result for the base ordering of the same mesh (max rel dev "
+                            f"{np.max(np.abs(B - B0)) / max(np.max(np.abs(B0)), 1e-300):.2e})"))
+    elif mesh["closed"] and mesh.get("selfint") is False:
         got = np.asarray(src.faces).tolist()
         bad = [i for i, (g, t) in enumerate(zip(got, mesh["truth_faces"])) if not same_orientation(t, g)]
         if sorted(map(sorted, got)) != sorted(map(sorted, faces)):
@@ -628,7 +695,7 @@ def check_mesh(mesh, ref=None):
 
 
 def fails_clause(base, t, scale, offset, clause):
-    ref = reference_field(base, scale, offset) if (clause == "field" and base["closed"]) else None
+    ref = make_ref(base, scale, offset) if clause in ("field", "field-order") else None
     m = apply_transform(base, t, scale, offset)
     return any(c == clause for c, _ in check_mesh(m, ref)), m, ref
 
@@ -667,7 +734,7 @@ def classify(base, t, scale, offset, clause):
 
 # scale of the vertex coordinates (the unit is the metre; typical magnets are 1e-3 .. 1e-1) and vertex offsets in
 # units of the body size
-SCALES = [1e-3, 1e-2, 0.1, 1.0, 1.0, 1.0, 10.0, 1e2, 1e3]
+SCALES = [1e-6, 1e-3, 1e-2, 0.1, 1.0, 1.0, 1.0, 10.0, 1e2, 1e3, 1e6]
 OFFSETS = [0, 0, 0, 3.7, -41.3, 1e3]
 
 
@@ -689,12 +756,20 @@ def add_unused_vertices(rng, base):
 
 def gen_base(rng, weights=None):
     b = gen_base0(rng)
+    if b.get("nested"):
+        return b            # kept plain so that the signature of a nested-shell failure names one family
     if rng.random() < 0.3:
         b = add_unused_vertices(rng, b)
+    if rng.random() < 0.25 and not b["construction"].startswith("interpenetrating-needles"):
+        b = stretch_base(b, rng.choice(STRETCHES))
+    if rng.random() < 0.3:
+        b["pol"] = rng.choice(POLS)
     return b
 
 
 def gen_base0(rng):
+    if rng.random() < 0.05:
+        return gen_nested(rng)
     if rng.random() < 0.03:
         kind = rng.choice(list(BIG_PARTS))
         return assemble([BIG_PARTS[kind](rng)], kind, False)
@@ -723,13 +798,17 @@ def search(ctx, n_bases, n_variants):
               lambda: add_unused_vertices(rng, gen_single(rng, "tetrahedron")),
               lambda: assemble([part_bighull(rng, 200)], "big-hull", False),
               lambda: assemble([part_bighull(rng, 300)], "big-hull", False),
-              lambda: assemble([part_subdivided_box(rng, 5)], "subdivided-box", False)]
+              lambda: assemble([part_subdivided_box(rng, 5)], "subdivided-box", False),
+              lambda: gen_nested(rng), lambda: gen_tiny(rng, 1), lambda: gen_tiny(rng, 2),
+              lambda: stretch_base(gen_single(rng, "convex-hull"), STRETCHES[0]),
+              lambda: stretch_base(gen_single(rng, "prism"), STRETCHES[2]),
+              lambda: stretch_base(gen_single(rng, "stellated"), STRETCHES[7])]
     for bi in range(n_bases):
         base = forced[bi]() if bi < len(forced) else gen_base(rng)
         scale = rng.choice(SCALES)
         offset = [scale * rng.choice(OFFSETS) * rng.choice([1, -1]) for _ in range(3)]
         nf, nv = len(base["faces"]), len(base["verts"])
-        ref = reference_field(base, scale, offset) if (base["closed"] and not base["selfint"]) else None
+        ref = make_ref(base, scale, offset)
         variants = [[]] + [[k] for k in TKINDS] + [TKINDS] * max(0, n_variants - 5)
         seen = set()
         for kinds in variants[:n_variants]:
@@ -935,6 +1014,125 @@ def mode_sweep(ctx, n_random, full_product):
                     ctx.impl_fail(f"mode-keywords/{con}:{obs}:{kw_name(small)}",
                                   f"{con}({kw_name(small)}) on a {m['body']} mesh: {what2[0]}",
                                   {"kind": "modes", "constructor": con, "mesh": m, "kw": small, "observable": obs})
+
+
+# =============================================================================== histories and input containers
+SKIP_ALL = {"reorient_faces": "skip", "check_open": "skip", "check_disconnected": "skip",
+            "check_selfintersecting": "skip"}
+SCENARIOS = {
+    "constructor-order": ["check_open", "check_disconnected", "reorient_faces", "check_selfintersecting"],
+    "reorient-first": ["reorient_faces", "check_selfintersecting", "check_disconnected", "check_open"],
+    "interleaved-getB": ["getB", "check_selfintersecting", "getB", "reorient_faces", "getB", "check_open",
+                         "check_disconnected"],
+    "repeated+rejected": ["check_open", "check_disconnected", "reorient_faces", "check_selfintersecting",
+                          "reorient_faces", "check_open", "bogus-mode", "check_disconnected", "check_selfintersecting",
+                          "bogus-mode", "reorient_faces"],
+}
+
+
+def outside_observers(mesh):
+    V = np.asarray(mesh["verts"], dtype=float)
+    lo, hi = V.min(axis=0), V.max(axis=0)
+    size = float(np.max(hi - lo))
+    c = (lo + hi) / 2
+    return [(c + np.array(d) * size).tolist() for d in ((0.83, 0.41, 0.67), (-0.9, 0.75, -0.35), (0.1, -1.2, 0.2))]
+
+
+def state_of(src, obs):
+    return {"status_open": src.status_open, "status_disconnected": src.status_disconnected,
+            "status_selfintersecting": src.status_selfintersecting, "status_reoriented": src.status_reoriented,
+            "faces": np.asarray(src.faces).tolist(), "B": src.getB(obs), "H": src.getH(obs)}
+
+
+def diff_states(got, want):
+    out = []
+    for k in ("status_open", "status_disconnected", "status_selfintersecting", "status_reoriented"):
+        if got[k] is None or bool(got[k]) != bool(want[k]):
+            out.append((k, f"{k}={got[k]!r}, fresh twin has {want[k]!r}"))
+    if got["faces"] != want["faces"]:
+        out.append(("faces", "faces differ from those of a fresh default-constructed twin"))
+    elif not (field_close(got["B"], want["B"]) and field_close(got["H"], want["H"])):
+        out.append(("field", "getB/getH differ from those of a fresh default-constructed twin"))
+    return out
+
+
+def check_history(mesh, scenario, rng_modes):
+    """TriangularMesh built with every check skipped, then the public methods called by hand in the scenario's
+    order (modes from rng_modes; 'bogus-mode' = a call that must be rejected): the object must end up like a
+    fresh default-constructed twin.  -> list of (observable, what)"""
+    obs = outside_observers(mesh)
+    with warnings.catch_warnings():
+        warnings.simplefilter("ignore")
+        want = state_of(make_mesh(mesh), obs)
+        src = make_mesh(mesh, **SKIP_ALL)
+        it = iter(rng_modes)
+        for step in SCENARIOS[scenario]:
+            if step == "getB":
+                src.getB(obs)
+            elif step == "bogus-mode":
+                before = state_of(src, obs)
+                try:
+                    src.reorient_faces(mode="sometimes")
+                    return [("rejects", "reorient_faces(mode='sometimes') was accepted")]
+                except ValueError:
+                    pass
+                d = diff_states(state_of(src, obs), before)
+                if d:
+                    return [("rejected-unchanged", "a rejected call changed the object: " + d[0][1])]
+            else:
+                r = getattr(src, step)(mode=next(it))
+                if step != "reorient_faces" and (r is None or bool(r) != bool(want["status_" + step[6:]])):
+                    return [(step, f"{step}() returned {r!r}, fresh twin has {want['status_' + step[6:]]!r}")]
+        return diff_states(state_of(src, obs), want)
+
+
+def container_variants(mesh):
+    V, F = np.asarray(mesh["verts"], dtype=float), np.asarray(mesh["faces"], dtype=int)
+    return {"lists": (V.tolist(), F.tolist()), "tuples": (tuple(map(tuple, V.tolist())), tuple(map(tuple, F.tolist()))),
+            "float64+int32": (V.copy(), F.astype(np.int32)), "float64+int64": (V.copy(), F.astype(np.int64)),
+            "float64+float-faces": (V.copy(), F.astype(float)),
+            "fortran-order": (np.asfortranarray(V), np.asfortranarray(F))}
+
+
+def check_containers(mesh):
+    obs = outside_observers(mesh)
+    out = []
+    with warnings.catch_warnings():
+        warnings.simplefilter("ignore")
+        want = state_of(make_mesh(mesh), obs)
+        for name, (v, f) in container_variants(mesh).items():
+            v0 = np.array(v, dtype=float).copy()
+            f0 = np.array(f).copy()
+            try:
+                src = magpy.magnet.TriangularMesh(vertices=v, faces=f, polarization=mesh.get("pol", POL))
+            except Exception as e:   # pylint: disable=broad-except
+                out.append((name + ":constructor", f"{type(e).__name__}: {e}"))
+                continue
+            for o, w in diff_states(state_of(src, obs), want):
+                out.append((name + ":" + o, w))
+            if not (np.array_equal(np.array(v, dtype=float), v0) and np.array_equal(np.array(f), f0)):
+                out.append((name + ":caller-arrays", "construction / reorientation modified the caller's arrays"))
+    return out
+
+
+def history_sweep(ctx, rounds):
+    rng = ctx.rng
+    for _ in range(rounds):
+        for m in mode_bodies(rng):
+            for sc in SCENARIOS:
+                if sc == "repeated+rejected" and m["body"] in ("open", "selfintersecting"):
+                    continue      # a second reorientation is only known to change nothing on a valid closed body
+                modes = [rng.choice(["ignore", "warn", True]) for _ in range(12)]
+                res = check_history(m, sc, modes)
+                ctx.case(("history", sc, m["body"], json.dumps(m["faces"])), True)
+                ctx.bump("history:" + sc)
+                for obs, what in res:
+                    ctx.impl_fail(f"history/{sc}:{obs}", f"{sc} on a {m['body']} mesh: {what}",
+                                  {"kind": "history", "mesh": m, "scenario": sc, "modes": modes})
+            for obs, what in check_containers(m):
+                ctx.impl_fail(f"input-container/{obs}", f"{m['body']} mesh: {what}", {"kind": "containers", "mesh": m})
+            ctx.case(("containers", m["body"], json.dumps(m["faces"])), True)
+            ctx.bump("containers")
 
 
 # =============================================================================== correspondence
@@ -1163,9 +1361,12 @@ def run(ctx):
     run_guarded(ctx, lambda: correspondence(ctx, rc == 0), "C16 correspondence")
     big = bool(ctx.broken)
     nb = ctx.n(60, 1200) * (5 if big else 1)
+    ctx.log("correspondence done")
     run_guarded(ctx, lambda: search(ctx, nb, ctx.n(6, 9)), "C16 search")
+    ctx.log("search done")
     run_guarded(ctx, lambda: mode_sweep(ctx, ctx.n(40, 400) * (3 if big else 1), ctx.tier == "thorough"),
                 "C16 constructors x mode keywords")
+    run_guarded(ctx, lambda: history_sweep(ctx, ctx.n(2, 20)), "C16 histories and input containers")
 
 
 def replay(ctx, obj):
@@ -1176,6 +1377,13 @@ def replay(ctx, obj):
         res = check_mesh(rp["mesh"], ref)
         hit = [w for c, w in res if c == rp.get("clause")] or [w for _, w in res]
         print("replay:", "property holds on this mesh" if not res else "FAILS: " + "; ".join(hit))
+        if res:
+            print(f"VIOLATION property=C16 replay={obj.get('how_to_rerun', '').split()[-1] or 'given'}")
+        return 1 if res else 0
+    if rp.get("kind") in ("history", "containers"):
+        res = check_history(rp["mesh"], rp["scenario"], rp["modes"]) if rp["kind"] == "history" else \
+            check_containers(rp["mesh"])
+        print("replay:", "holds" if not res else "FAILS: " + "; ".join(w for _, w in res))
         if res:
             print(f"VIOLATION property=C16 replay={obj.get('how_to_rerun', '').split()[-1] or 'given'}")
         return 1 if res else 0
